@@ -205,6 +205,13 @@ func (r *Rig) onSnap(op faultdb.Op, changed []string, snap map[string][]byte) {
 	r.Log.Append(Ev{Kind: KCommit, Op: op.Kind, Changed: changed, Snap: s})
 }
 
+// SnapsCopy returns the raw snapshots kept so far.
+func (r *Rig) SnapsCopy() []map[string][]byte {
+	r.snapMu.Lock()
+	defer r.snapMu.Unlock()
+	return append([]map[string][]byte(nil), r.Snaps...)
+}
+
 // DecodeSnap extracts source positions and pipeline statuses from raw store bytes.
 func DecodeSnap(snap map[string][]byte) *Snap {
 	s := &Snap{Pos: map[string]int{}, Status: map[string]string{}, NKeys: len(snap)}
